@@ -66,8 +66,10 @@ ReadResults(total, p, req) ==
 \* a schedule: cuts \subseteq 1..total-1 (a Read never crosses a cut; what is left of a chunk is
 \* delivered by the following calls), ewd = EOF comes together with the last bytes
 NextCut(total, cuts, p) ==
-  LET ahead == {c \in cuts : c > p /\ c < total} IN
-  IF ahead = {} THEN total ELSE CHOOSE c \in ahead : \A x \in ahead : c <= x
+  IF p + 1 >= total THEN total
+  ELSE IF (p + 1) \in cuts THEN p + 1
+  ELSE LET ahead == {c \in cuts : c > p /\ c < total} IN
+       IF ahead = {} THEN total ELSE CHOOSE c \in ahead : \A x \in ahead : c <= x
 SchedResult(total, cuts, ewd, p, req) ==
   IF req = 0 THEN <<0, FALSE>>
   ELSE IF p = total THEN <<0, TRUE>>
@@ -119,12 +121,15 @@ Step(v, plan, probe, dd, n, eof) ==
 
 Result(dd) == <<dd.out, dd.end>>
 
-\* the run of decoder v under a schedule (total = Total(plan), passed in evaluated)
+\* the run of decoder v under a schedule (total = Total(plan), passed in evaluated).
+\* (TLC passes operator arguments unevaluated and re-evaluates them inside RECURSIVE operators: the
+\*  next position and decoder state are bound through a singleton set, which forces ONE evaluation.)
 RECURSIVE Deliver(_, _, _, _, _, _, _, _)
 Deliver(v, plan, probe, total, cuts, ewd, p, dd) ==
   IF dd.end # "" THEN dd
-  ELSE LET r == SchedResult(total, cuts, ewd, p, Want(plan, probe, dd))
-       IN Deliver(v, plan, probe, total, cuts, ewd, p + r[1], Step(v, plan, probe, dd, r[1], r[2]))
+  ELSE LET nx == {<<p + r[1], Step(v, plan, probe, dd, r[1], r[2])>> :
+                    r \in {SchedResult(total, cuts, ewd, p, Want(plan, probe, dd))}}
+       IN CHOOSE res \in {Deliver(v, plan, probe, total, cuts, ewd, x[1], x[2]) : x \in nx} : TRUE
 
 \* the whole-buffer delivery: one chunk, EOF on a later call
 WholeBuffer(plan, probe) ==
